@@ -325,17 +325,38 @@ def r5_positive_control(ctx):
 
 
 # ---- R5.1 helpers -------------------------------------------------------------------------------
-def _enum_value(f, v, known, variants):
+def _enum_value(f, v, known, variants, body=None):
     """Variant name of an enum-valued expression: a literal, an expression the hypothesis fixes, or a
     crate-local pure function of such a value (`x.opposite()`), evaluated by specialising the callee."""
     from wa.cond import specialise
     v = strip_refs(v)
     if v in known:
         return known[v]
+    # the same field read after writes to OTHER fields of the object still holds the known value (the
+    # memory version is per object, not per field)
+    if body is not None and v[0] == "field" and v[1][0] == "mem":
+        for k, val in known.items():
+            if k[0] == "field" and k[1][0] == "mem" and k[1][1] == v[1][1] and k[2] == v[2]:
+                extra = [d for d in v[1][2] if d not in k[1][2]]
+                ok = True
+                for (dloc, kind) in extra:
+                    if kind != "mem" or not isinstance(dloc, tuple) or len(dloc) != 2:
+                        ok = False
+                        break
+                    st = body.stmts(dloc[0])
+                    if dloc[1] >= len(st) or st[dloc[1]]["k"] != "assign":
+                        ok = False
+                        break
+                    pj = st[dloc[1]]["place"]["proj"]
+                    if not (len(pj) >= 2 and pj[0]["k"] == "deref" and pj[1]["k"] == "field" and pj[1]["name"] != v[2]):
+                        ok = False
+                        break
+                if ok:
+                    return val
     if v[0] == "agg" and not v[3]:
         return v[2]
     if v[0] == "call" and f.has_body(v[1]) and len(v[2]) == 1:
-        a = _enum_value(f, v[2][0], known, variants)
+        a = _enum_value(f, v[2][0], known, variants, body)
         if a is None:
             return None
         cb = f.body(v[1])
@@ -390,7 +411,7 @@ def r5_1(ctx):
             ok = len(ws) == 1 and ws[0][3][1] == "to_move" and len(xs) == 1 and xs[0][3][1] == [("side",)] and xs[0][3][2]
             detail = ""
             if ok:
-                nv = _enum_value(f, ws[0][3][3], {tm: cur}, colours)
+                nv = _enum_value(f, ws[0][3][3], {tm: cur}, colours, b)
                 ok = nv == other
                 detail = "with %s to move to_move becomes %s and the side key is XORed once" % (cur, nv)
             ctx.ob("swap_color:%s:path#%d" % (cur, pi), ok, b.where((blocks[-1], 0)), detail or "each path must toggle to_move once and XOR the side key once; events: %s" % [(e[2], e[3][1]) for e in es])
